@@ -180,6 +180,7 @@ func c17APIGlobal() c17API {
 // c17Shape records what a generated file contains (input distribution and floors).
 type c17Shape struct {
 	funcs, includes, data, constraints, instrs, virtuals int
+	webs, webMerges, webVec, webPhys                     int // copy webs (see c17Build)
 	sigs                                                 []int
 }
 
@@ -375,6 +376,183 @@ func c17Build(a c17API, seed uint64, k int) (incs []string, sh c17Shape) {
 			// *[4]uint64: Dereference allocates a GP64 of its own and loads the pointer
 			a.Load(a.Dereference(a.Param("p")).Index(1+r.intn(3)), G())
 		}
+		// Copy webs: plain register-to-register moves in which ONE virtual register is copied from (or to) SEVERAL
+		// others on different control-flow paths — the phi-like merges every coalescing / affinity / hint heuristic of
+		// an allocator keys on.  The sources are made before the merged register (smaller ids, allocated first on
+		// ties), are all live at the dispatch (so they get different registers) and die with their copy (so the
+		// merged register interferes with none of them and every source's register is still a candidate for it).
+		web := func(wi int) {
+			lbl := func(s string) string { return fmt.Sprintf("w%d_%d_%s", fi, wi, s) }
+			jmp := func(to string) { emit(x86.JMP(operand.LabelRef(lbl(to)))) }
+			k := 2 + r.intn(3)
+			sh.webs++
+			switch variant := r.intn(8); {
+			case variant < 4: // GP diamond / switch merge, 64 or 32 bit, optionally with a physical source
+				wide := r.chance(2, 3)
+				view := func(g reg.GPVirtual) reg.Register {
+					if wide {
+						return g
+					}
+					return g.As32()
+				}
+				mov := func(x, y reg.Register) {
+					if wide {
+						emit(x86.MOVQ(x, y))
+					} else {
+						emit(x86.MOVL(x, y))
+					}
+				}
+				var merged reg.GPVirtual
+				if r.chance(1, 5) {
+					merged = a.GP64() // smaller id than the sources
+				}
+				src := make([]reg.GPVirtual, k)
+				for i := range src {
+					src[i] = a.GP64()
+					a.MOVQ(operand.U32(uint32(100+r.intn(900))), src[i])
+					sh.instrs++
+				}
+				if merged == nil {
+					merged = a.GP64()
+				}
+				sh.virtuals += k + 1
+				phys := -1
+				if r.chance(1, 4) {
+					phys = r.intn(k)
+					sh.webPhys++
+				}
+				for i := 0; i+1 < k; i++ {
+					emit(x86.CMPQ(src[i], src[i+1]))
+					emit(x86.JE(operand.LabelRef(lbl(fmt.Sprint("p", i)))))
+				}
+				for i := k - 1; i >= 0; i-- {
+					if i < k-1 {
+						a.Label(lbl(fmt.Sprint("p", i)))
+					}
+					if i == phys {
+						mov(view2(pick(r, []reg.GPPhysical{reg.RAX, reg.RCX, reg.RDX, reg.R8, reg.R15}), wide), view(merged))
+					} else {
+						mov(view(src[i]), view(merged))
+					}
+					if i > 0 {
+						jmp("end")
+					}
+				}
+				a.Label(lbl("end"))
+				a.ADDQ(merged, gp[0])
+				sh.instrs++
+				sh.webMerges++
+			case variant < 5: // fan-out: one register copied to several others on different paths
+				from := a.GP64()
+				a.MOVQ(operand.U32(uint32(r.intn(1000))), from)
+				dst := make([]reg.GPVirtual, k)
+				for i := range dst {
+					dst[i] = a.GP64()
+				}
+				sh.virtuals += k + 1
+				for i := 0; i+1 < k; i++ {
+					emit(x86.CMPQ(from, operand.U8(uint8(i))))
+					emit(x86.JE(operand.LabelRef(lbl(fmt.Sprint("p", i)))))
+				}
+				for i := k - 1; i >= 0; i-- {
+					if i < k-1 {
+						a.Label(lbl(fmt.Sprint("p", i)))
+					}
+					emit(x86.MOVQ(from, dst[i]))
+					a.ADDQ(dst[i], gp[0])
+					if i > 0 {
+						jmp("end")
+					}
+				}
+				a.Label(lbl("end"))
+				sh.instrs += 1 + k
+			case variant < 6: // loop-carried copy: set before the loop, replaced on the back edge
+				s1, s2 := a.GP64(), a.GP64()
+				a.MOVQ(operand.U32(uint32(r.intn(1000))), s1)
+				a.MOVQ(operand.U32(uint32(r.intn(1000))), s2)
+				merged, n := a.GP64(), a.GP64()
+				sh.virtuals += 4
+				a.MOVQ(operand.U32(uint32(2+r.intn(5))), n)
+				emit(x86.MOVQ(s1, merged))
+				a.Label(lbl("loop"))
+				a.ADDQ(merged, gp[0])
+				emit(x86.MOVQ(s2, merged))
+				emit(x86.DECQ(n))
+				emit(x86.JNZ(operand.LabelRef(lbl("loop"))))
+				a.ADDQ(merged, gp[0])
+				sh.instrs += 5
+				sh.webMerges++
+			case variant < 7: // vector merge
+				src := make([]reg.VecVirtual, k)
+				for i := range src {
+					src[i] = a.XMM()
+					emit(x86.PXOR(src[i], src[i]))
+				}
+				merged := a.XMM()
+				sh.virtuals += k + 1
+				sel := G()
+				for i := 0; i+1 < k; i++ {
+					emit(x86.CMPQ(sel, operand.U8(uint8(i))))
+					emit(x86.JE(operand.LabelRef(lbl(fmt.Sprint("p", i)))))
+				}
+				for i := k - 1; i >= 0; i-- {
+					if i < k-1 {
+						a.Label(lbl(fmt.Sprint("p", i)))
+					}
+					if r.chance(1, 2) {
+						emit(x86.MOVAPS(src[i], merged))
+					} else {
+						emit(x86.MOVOU(src[i], merged))
+					}
+					if i > 0 {
+						jmp("end")
+					}
+				}
+				a.Label(lbl("end"))
+				emit(x86.PADDD(merged, xs[0]))
+				sh.webVec++
+				sh.webMerges++
+			default: // opmask merge
+				if nK == 0 {
+					sh.webs--
+					return
+				}
+				src := make([]reg.OpmaskVirtual, k)
+				for i := range src {
+					src[i] = a.K()
+					emit(x86.KMOVQ(G(), src[i]))
+				}
+				merged := a.K()
+				sh.virtuals += k + 1
+				sel := G()
+				for i := 0; i+1 < k; i++ {
+					emit(x86.CMPQ(sel, operand.U8(uint8(i))))
+					emit(x86.JE(operand.LabelRef(lbl(fmt.Sprint("p", i)))))
+				}
+				for i := k - 1; i >= 0; i-- {
+					if i < k-1 {
+						a.Label(lbl(fmt.Sprint("p", i)))
+					}
+					emit(x86.KMOVQ(src[i], merged))
+					if i > 0 {
+						jmp("end")
+					}
+				}
+				a.Label(lbl("end"))
+				emit(x86.KMOVQ(merged, G()))
+				sh.webMerges++
+			}
+		}
+		nWeb := 0
+		if k%4 == 3 {
+			nWeb = 2 + r.intn(3)
+		} else if r.chance(1, 2) {
+			nWeb = 1
+		}
+		websBefore := r.intn(nWeb + 1)
+		for wi := 0; wi < websBefore; wi++ {
+			web(wi)
+		}
 		loop := r.chance(1, 3)
 		cnt := G()
 		if loop {
@@ -460,6 +638,9 @@ func c17Build(a c17API, seed uint64, k int) (incs []string, sh c17Shape) {
 				emit(x86.SHA256RNDS2(reg.X0, X(), X()))
 			}
 		}
+		for wi := websBefore; wi < nWeb; wi++ {
+			web(wi)
+		}
 		if r.chance(1, 2) {
 			// keep every GP (and vector) virtual alive to the end: interference between all of them
 			for i := 1; i < nGP; i++ {
@@ -495,6 +676,14 @@ func c17Build(a c17API, seed uint64, k int) (incs []string, sh c17Shape) {
 		}
 	}
 	return incs, sh
+}
+
+// view2: the 64- or 32-bit view of a physical general-purpose register
+func view2(p reg.GPPhysical, wide bool) reg.Register {
+	if wide {
+		return p
+	}
+	return p.As32()
 }
 
 type c17buf struct{ bytes.Buffer }
@@ -786,6 +975,15 @@ func init() {
 					if sh.constraints >= 1 {
 						stats["c_compiled_with_constraints"]++
 					}
+					if sh.webMerges >= 1 {
+						stats["c_compiled_with_copyweb_merge"]++
+					}
+					if sh.webs >= 2 {
+						stats["c_compiled_ge2_copywebs"]++
+					}
+					stats["c_copywebs"] += sh.webs
+					stats["c_copyweb_vector"] += sh.webVec
+					stats["c_copyweb_physical_source"] += sh.webPhys
 					stats["c_instrs"] += sh.instrs
 					stats["c_virtuals"] += sh.virtuals
 				}
